@@ -18,7 +18,7 @@ CLASS_ID = {'K1': 'C08-K1-commutative-shortcut', 'K3': 'C08-K3-concat-precedence
 HEADER = ('From Coq Require Import List Arith Bool NArith. Import ListNotations.\n'
           'From SV Require Import C08.Syntax C08.Model C08.Layout C08.Lit C08.Corr.\n')
 FHEADER = ('From Coq Require Import List Arith Bool NArith ZArith. Import ListNotations.\n'
-           'From SV Require Import C08.Syntax C08.Model C08.FSyntax C08.FModelTypes C08.FModelExpr C08.Corr C08.FCorr.\n')
+           'From SV Require Import C08.Syntax C08.Model C08.FSyntax C08.FModelTypes C08.FModelExpr C08.FModelDecl C08.Corr C08.FCorr.\n')
 
 
 def generate():
@@ -282,10 +282,135 @@ def layer_b_fparse(ck, rng, n_random, more_texts=()):
         ck.obligation('model-evaluation (parser-only texts)', False, e)
     for idx in sorted(fails)[:4]:
         tps, t, toks, back = cases[idx]
+        if fails[idx] == 2:
+            ck.disagree('fwf (domain of the round-trip theorems) holds of every tree the parser produces', {'text': t, 'tparams': list(tps)},
+                        'fwf = true', 'fwf = false', how='vh fmt-run parse-expr')
+            continue
         ck.disagree('C08.FModelExpr.parse_fexpr (model) vs samlang_parser on a source text', {'text': t, 'tparams': list(tps)},
                     'model parser differs (acceptance or tree)', {'real': None if back is None else fexprs.g_fexpr(back)}, how='vh fmt-run parse-expr')
     ck.extra_cov['parser_only_texts_compared'] = len(cases) - len(fails)
     return cases, fails
+
+
+def py_import_conflict(imps):
+    """twin of FModelDecl.import_conflict: some name is imported from two different modules"""
+    seen = {}
+    for ms, mod in imps:
+        for n in ms:
+            if n in seen and seen[n] != mod:
+                return True
+            seen.setdefault(n, mod)
+    # a later line may re-import from the first module after a different one: compare all pairs
+    owners = {}
+    for ms, mod in imps:
+        for n in ms:
+            owners.setdefault(n, set()).add(tuple(mod))
+    return any(len(v) > 1 for v in owners.values())
+
+
+def layer_b_fmodules(ck, rng, table, n_random):
+    """full model, declarations: source text -> real lexer/parser vs parse_module; real formatter tokens vs fimpl_module on the
+    parsed tree; real parser on the output vs parse_module; module_ok on every parsed tree; the round-trip theorem instance
+    (back = organise imports, same toplevels) outside Known_C08; import_conflict Coq vs Python; resolve invariance"""
+    texts = [('hand', t) for t in fexprs.module_texts()]
+    for i in range(n_random):
+        r = rng.fork()
+        m = fexprs.gen_module_tree(r, 1 + i % 3, conflicts=(i % 5 == 0))
+        texts.append(('generated', fexprs.src_module(m, r)))
+    # declaration-level mutants: drop / double / replace a token
+    base = [t for _, t in texts if t]
+    for _ in range(n_random // 2):
+        toks = rng.pick(base).split(' ')
+        i = rng.below(len(toks))
+        k = rng.below(3)
+        if k == 0:
+            del toks[i]
+        elif k == 1:
+            toks.insert(i, toks[i])
+        else:
+            toks[i] = rng.pick(['(', ')', '{', '}', ',', ':', '<', '>', 'private', 'val', 'class', 'function', 'method', 'C7', 'v1', ';', '='])
+        texts.append(('mutant', ' '.join(toks)))
+    res = run_vh('module-raw', [{'id': i, 'text': t, 'width': [100, 20, 1][i % 3]} for i, (_, t) in enumerate(texts)])
+    cases = []
+    for (label, t), r in zip(texts, res):
+        if 'panic' in r:
+            ck.count('module texts on which parser or printer panicked (C05)')
+            continue
+        if r.get('lex_errors', 0) > 0:
+            continue
+        toks = fexprs.g_ftokens(r['tokens'])
+        if toks is None:
+            continue
+        parsed = ptoks = back = None
+        kn = conflict = False
+        try:
+            if r.get('errors') == 0:
+                parsed = fexprs.module_from_json(r['raw'])
+                kn = bool(exprs.tree_classes(table, r['raw']['toplevels']) & {'K1', 'K3'})
+                conflict = py_import_conflict(parsed[0])
+                p = r.get('printed') or {}
+                if 'panic' in p:
+                    ck.property_failure('parser panicked on the formatter output', {'module': t}, observed=p['panic'])
+                    continue
+                ptoks = fexprs.g_ftokens(p.get('tokens', []))
+                if p.get('errors') == 0:
+                    back = fexprs.module_from_json(p['raw'])
+        except ValueError:
+            continue
+        cases.append((t, toks, parsed, ptoks, back, kn, conflict, r))
+        ck.case(['module-text', t], nontrivial=parsed is not None)
+        ck.count('declaration-level source texts (%s)' % label)
+    ck.count('declaration-level source texts accepted by the real parser', sum(1 for c in cases if c[2] is not None))
+    ck.count('declaration-level source texts with an import conflict (K7)', sum(1 for c in cases if c[6]))
+
+    def render_case(c):
+        _, toks, parsed, ptoks, back, kn, conflict, _ = c
+        gm = lambda m: 'None' if m is None else '(Some %s)' % fexprs.g_module(m)
+        return '(%s, %s, %s, %s, %s, %s)' % (toks, gm(parsed), 'None' if ptoks is None else '(Some %s)' % ptoks, gm(back),
+                                             'true' if kn else 'false', 'true' if conflict else 'false')
+    fails, _, errors = eval_fails('fmodule', shard(cases), 'fmodule_case', render_case, 'fmodule_fails', header=FHEADER)
+    for e in errors:
+        ck.obligation('model-evaluation (modules)', False, e)
+    what = {1: 'C08.FModelDecl.parse_module (model) vs samlang_parser on a source text',
+            2: 'C08.FModelDecl.fimpl_module (model) vs pretty_print_source_module (tokens of the formatted module)',
+            3: 'C08.FModelDecl.parse_module (model) vs samlang_parser on the formatted module',
+            4: 'module_ok (domain of module_roundtrip) holds of every module the parser produces',
+            5: 'module_roundtrip instance: formatted module not read back as (organise imports, same toplevels)',
+            6: 'module_known (Coq) vs gen.exprs.tree_classes (Python)', 7: 'import_conflict (Coq) vs Python',
+            8: 'resolve_organise instance: a name resolves differently after import organisation without a conflict',
+            9: 'formatted module has a token outside the model'}
+    for idx in sorted(fails)[:4]:
+        c = cases[idx]
+        ck.disagree(what.get(fails[idx], 'code %d' % fails[idx]), {'module': c[0]}, 'model: Coq C08/FCorr.v fmodule_check code %d' % fails[idx],
+                    {'errors': c[7].get('errors'), 'printed': (c[7].get('printed') or {}).get('text')}, how='vh fmt-run module-raw')
+    ck.extra_cov['module_texts_compared'] = len(cases) - len(fails)
+    return cases, fails
+
+
+def token_mutants(rng, printed, n):
+    """near-valid source texts: printed expressions with a token deleted, doubled, replaced, or a trailing comma inserted"""
+    out = []
+    pool = ['(', ')', ',', '{', '}', ';', '->', ':', '<', '>', '.', '|', '_', '=', 'v0', 'C0', '1', 'let', 'if', 'else', 'match', 'as', '-', '!', '+', 'int']
+    for _ in range(n):
+        toks = [t[1] for t in rng.pick(printed)]
+        if not toks:
+            continue
+        k = rng.below(5)
+        i = rng.below(len(toks))
+        if k == 0:
+            del toks[i]
+        elif k == 1:
+            toks.insert(i, toks[i])
+        elif k == 2:
+            toks[i] = rng.pick(pool)
+        elif k == 3:
+            toks.insert(i, rng.pick(pool))
+        else:
+            closers = [j for j, t in enumerate(toks) if t in (')', '}', '>')]
+            if closers:
+                toks.insert(rng.pick(closers), ',')
+        out.append(' '.join(toks))
+    return out
 
 
 def valid_raw(r):
@@ -553,8 +678,10 @@ def run(tier, seed, replay=None):
         'hand models: C08/Model.v (parser levels, printer decisions: the non-commutative set {- / %}, the three-way Binary rule, the '
         'may_end_with_field_name guard on the left operand of `<` and the equal-level parentheses of a unary operand are copied by hand), C08/Layout.v (prettier.rs), C08/Lit.v (string/int literal lexing and printing) - each differentially executed '
         'against the real printer, lexer and parser on every run',
-        'model fragment: atoms, field access, one-argument call, block with one expression, unary, binary, if/else, one-arm match, '
-        'one-parameter lambda; declarations, patterns, types, statements are covered by the monitor only',
+        'fragment model (Model.v): atoms, field access, one-argument call, block with one expression, unary, binary, if/else, one-arm match, '
+        'one-parameter lambda; full model (F*.v): all expressions and statements, patterns, type annotations - hand-written, statement by '
+        'statement after source_parser.rs / source_printer.rs, tied by the same three-way differential plus a parser-only tie on source texts '
+        'the printer never emits; syntax errors are `None`, the nesting limit (200) is not modelled',
         'harness JSON <-> Gallina translation (gen/exprs.py, checks/c08.py)',
     ]
     try:
@@ -589,6 +716,11 @@ def run(tier, seed, replay=None):
     # ---- layer B
     layer_b_docs(ck, rng.fork(), 2000 if quick else 20000)
     layer_b_exprs(ck, rng.fork(), table, 1100 if quick else 27000, all_triples=not quick)
+    fcases, _ = layer_b_fexprs(ck, rng.fork(), table, 1500 if quick else 30000, all_triples=not quick)
+    prng = rng.fork()
+    printed = [c[5]['tokens'] for c in fcases if c[5].get('tokens')]
+    layer_b_fparse(ck, prng, 300 if quick else 5000, more_texts=token_mutants(prng, printed, 1500 if quick else 30000) if printed else ())
+    layer_b_fmodules(ck, rng.fork(), table, 600 if quick else 8000)
     layer_b_literals(ck, rng.fork(), 200 if quick else 3000)
 
     # ---- witnesses of the registered findings
@@ -609,7 +741,12 @@ def run(tier, seed, replay=None):
     small = [s for s in samples if len(s[1]) < 30000]
     monitor_modules(ck, table, samples, 'tests/ and std/', typecheck=False)
     monitor_modules(ck, table, mutants(mrng.fork(), small, 150 if quick else 1500), 'mutants of tests/ and std/')
-    ck.rule = ('documents: random Document trees (depth 2-6, texts incl. multi-byte and blank-carrying strings, arbitrary and group-built '
+    ck.rule = ('full model: expression trees = every (parent constructor, child position) x child constructor pair over 13 constructors '
+               '(61 contexts x 48 child shapes), every pattern / annotation constructor in every position, operator triples, random '
+               'parser-producible trees of depth 2-5 with and without type parameters in scope; parser-only texts = hand-written corner '
+               'cases, random token strings and single-token mutants of printed expressions; modules = hand-written declaration corner '
+               'cases, generated modules (imports with and without conflicts, classes / interfaces with every optional part) as source '
+               'text, single-token mutants; documents: random Document trees (depth 2-6, texts incl. multi-byte and blank-carrying strings, arbitrary and group-built '
                'unions) at widths 1/8/20/40/80, exact string equality; expression trees: every (parent constructor, child position) x child '
                'constructor pair, operator triples, random trees of depth 2-5, ALL of them incl. Known_C08 ones; modules: generated text with '
                'explicit and redundant parentheses, tests/*.sam, std/*.sam and their token-level mutants at widths 1/20/40/80/100/200; '
